@@ -40,10 +40,11 @@ Definition set_flag (q : quirks) (i : N) (b : bool) : quirks :=
      q_retry_jitter := if (i =? 8)%N then b else q_retry_jitter q;
      q_builder_template := if (i =? 9)%N then b else q_builder_template q;
      q_topic_index := if (i =? 10)%N then b else q_topic_index q;
-     q_flow_namespace := if (i =? 11)%N then b else q_flow_namespace q |}.
+     q_flow_namespace := if (i =? 11)%N then b else q_flow_namespace q;
+     q_stream_compress := if (i =? 12)%N then b else q_stream_compress q |}.
 
-(** the two run-time flags switched off *)
-Definition rt_off (q : quirks) : quirks := set_flag (set_flag q 1 false) 6 false.
+(** the run-time flags switched off *)
+Definition rt_off (q : quirks) : quirks := set_flag (set_flag (set_flag q 1 false) 6 false) 12 false.
 
 Definition stage_init (p : N) : bool := ((p =? 1) || (p =? 2))%N.
 Definition stage_handle (p : N) : bool := ((p =? 3) || (p =? 5))%N.
@@ -71,7 +72,7 @@ Definition matters (c : spec_case) (pinned : quirks) (i : N) : bool :=
   let v' := validate o q' (sc_cat c) (sc_raw c) in
   negb (Bool.eqb (v_accept v) (v_accept v')) ||
   negb (Bool.eqb (may_stage o pinned (sc_raw c) v (ob_panic c)) (may_stage o q' (sc_raw c) v' (ob_panic c))) ||
-  (((i =? 1) || (i =? 6))%N &&
+  (((i =? 1) || (i =? 6) || (i =? 12))%N &&
    let qi := set_flag (rt_off pinned) i true in
    negb (Bool.eqb (may_stage o qi (sc_raw c) v (ob_panic c)) (may_stage o (rt_off pinned) (sc_raw c) v (ob_panic c)))).
 
@@ -81,7 +82,7 @@ Fixpoint first_flag (c : spec_case) (pinned : quirks) (is : list N) : N :=
   | i :: t => if flag pinned i && matters c pinned i then i else first_flag c pinned t
   end.
 
-Definition all_flags : list N := [1; 2; 3; 4; 5; 6; 7; 8; 9; 10; 11]%N.
+Definition all_flags : list N := [1; 2; 3; 4; 5; 6; 7; 8; 9; 10; 11; 12]%N.
 
 Fixpoint kind_index (cat kind : string) (ks : list kind_info) (i : N) : N :=
   match ks with
